@@ -603,6 +603,8 @@ static void check_symm(Result &r, const json &c, const Mat &A, const Run &R, boo
                         opt.at("tol").get<std::string>().c_str(), long(space), long(opt.at("iter").get<Index>()), long(R.iters),
                         opt.value("mf", false) ? " matrix-free" : "");
 
+  if (must_succeed && getenv("VV_C09_F2STAT"))
+    fprintf(stderr, "F2STAT iters=%ld n=%ld k=%ld %s offscale=%g info=%d\n", long(R.iters), long(n), long(k), cfg.c_str(), c.value("offscale", 0.0), int(R.info));
   if (R.info == Eigen::Success) {
     r.cls("Success");
     r.cls(R.iters <= 5 ? "iters<=5" : R.iters <= 10 ? "iters<=10" : R.iters <= 25 ? "iters<=25" : "iters>25");
@@ -900,6 +902,9 @@ static json gen_f2() {
   c["offscale"] = pick<double>({0.05, 0.05, 0.025, 0.01, 0.001});
   json o = gen_opt(true, k, n, 50, 50);
   c["opt"] = o;
+  // calibration (unchanged tree, 28 000 cases): <= 12 iterations everywhere except update=max with tolerance=lapack (restart every
+  // second iteration, up to 26 iterations at row sums 0.05); that combination gets row sums <= 0.01 to keep a wide margin to 50
+  if (o.at("upd") == "max" && o.at("tol") == "lapack" && c["offscale"].get<double>() > 0.01) c["offscale"] = 0.01;
   apply_known(c, false);
   return c;
 }
